@@ -51,6 +51,10 @@ def gen(ctx):
         for t in ("capture", "communicate", "join"):
             specs.append(f"{CMDS[0]} {ops} term:{t}")
     for t in TERMS:
+        # zero bytes of input data are still input data: refused loudly by the terminators that cannot deliver it
+        specs.append(f"{CMDS[0]} data: term:{t}")
+        specs.append(f"{CMDS[0]} data: clone arg:{hx(b'x')} term:{t}")
+    for t in TERMS:
         specs.append(f"{CMDS[0]} data:{hx(b'hello')} term:{t}")
         specs.append(f"{CMDS[0]} in:P data:{hx(b'hello')} term:{t}")
         specs.append(f"{CMDS[0]} data:{hx(b'hello')} in:P term:{t}")
